@@ -588,3 +588,68 @@ def _(v):
     except Exception as ex:
         ok3, got = False, repr(ex)[:200]
     v.prove("text_without_names_parses_back", ok3, detail=repr(got))
+
+
+@harness("C12", "keys_containing_a_comment_token", functions=["chempy.reactionsystem:ReactionSystem.from_string", "chempy.equilibria:EqSystem.from_string", "chempy.reactionsystem:ReactionSystem.string"], kind="data")
+def _(v):
+    """'for every species key without spaces ... multi-line systems with comments': a comment is a LINE prefixed by a comment token; inside a
+    reaction line the characters of a comment token are ordinary characters of a space-free key (triple bonds 'C#C', 'N#N', 'HC#N', a key
+    'a//b' when '//' is the token), on either side, in an inactive group, behind 'n *', with or without a parameter part. Every written species
+    lands on its written side with its written coefficient, nothing after it is dropped, the allowed-key list is tested against the WHOLE key,
+    the system parser reads each line as the one-line parser does, and such a system survives print -> parse. (Keys that BEGIN with a token
+    are left out: at the head of a line they are indistinguishable from a comment.)"""
+    from chempy.chemistry import Reaction, Equilibrium, Substance
+    from chempy.reactionsystem import ReactionSystem
+    from chempy.equilibria import EqSystem
+    summary = lambda rs: [(type(r), dict(r.reac), dict(r.prod), dict(r.inact_reac), dict(r.inact_prod), r.param, r.name) for r in rs.rxns]
+    lines = ["CC -> C#C + 2 [H][H]; 4e-7", "2 N#N + (HC#N) -> 3 * A# + B; 2; name='n2'", "C#C + (2 A#) -> CC + (N#N)", "A# -> 2 N#N"]
+    text = "\n".join(["# species keyed by their SMILES", lines[0], "   # CC -> C#C; 1", lines[1], "", "#C#C -> CC; 7", lines[2], lines[3]])
+    want = [(Reaction, {"CC": 1}, {"C#C": 1, "[H][H]": 2}, {}, {}, 4e-7, None), (Reaction, {"N#N": 2}, {"A#": 3, "B": 1}, {"HC#N": 1}, {}, 2, "n2"),
+            (Reaction, {"C#C": 1}, {"CC": 1}, {"A#": 2}, {"N#N": 1}, None, None), (Reaction, {"A#": 1}, {"N#N": 2}, {}, {}, None, None)]
+    written = {"CC", "C#C", "[H][H]", "N#N", "HC#N", "A#", "B"}
+    rs = _try(lambda: ReactionSystem.from_string(text, substance_factory=Substance))
+    got = _try(lambda: summary(rs))
+    v.prove("system_lines_read_as_written", got == want, detail=repr(got))
+    subs = _try(lambda: list(rs.substances))
+    v.prove("substances_are_the_written_keys", not isinstance(subs, _Raised) and set(subs) == written and len(subs) == len(written), detail=repr(subs))
+    # one line = one reaction: what the system parser makes of a line is what the one-line parser makes of it
+    got = _try(lambda: [(dict(a.reac), dict(a.prod), dict(a.inact_reac), dict(a.inact_prod), a.param, a.name) == (dict(b.reac), dict(b.prod), dict(b.inact_reac), dict(b.inact_prod), b.param, b.name)
+                        for a, b in zip(rs.rxns, [Reaction.from_string(ln) for ln in lines])])
+    v.prove("system_parser_agrees_with_line_parser", got == [True] * 4, detail=repr(got))
+    # equilibria: the sibling entry point (dissociation of HCN, ammonia synthesis written with the triple bond)
+    got = _try(lambda: summary(EqSystem.from_string("N#N + 3 H2 = 2 NH3; 1e5\n# HC#N = H+ + C#N-; 1\nHC#N = H+ + C#N-; 6e-10", substance_factory=Substance)))
+    v.prove("equilibrium_lines_read_as_written", got == [(Equilibrium, {"N#N": 1, "H2": 3}, {"NH3": 2}, {}, {}, 1e5, None), (Equilibrium, {"HC#N": 1}, {"H+": 1, "C#N-": 1}, {}, {}, 6e-10, None)], detail=repr(got))
+    # the tokens are the given ones: with ('//', '--') the keys 'a//b' and 'c--d' are whole keys and '#' is no token at all
+    got = _try(lambda: summary(ReactionSystem.from_string("// c\na//b -> 2 c--d + e; 3\n  -- x -> y\nC#C -> a//b", substance_factory=Substance, comment_tokens=("//", "--"))))
+    v.prove("given_tokens_inside_keys", got == [(Reaction, {"a//b": 1}, {"c--d": 2, "e": 1}, {}, {}, 3, None), (Reaction, {"C#C": 1}, {"a//b": 1}, {}, {}, None, None)], detail=repr(got))
+    # allowed-key list: the whole key is looked up - 'C#C' is known when listed, and is not the known key 'C' (nor 'A#' the known 'A')
+    got = _try(lambda: (lambda r: (summary(r), list(r.substances)))(ReactionSystem.from_string("CC -> C#C + 2 [H][H]; 4e-7", "CC C#C [H][H] C", substance_factory=Substance)))
+    v.prove("listed_key_accepted", got == ([want[0]], ["CC", "C#C", "[H][H]", "C"]), detail=repr(got))
+    accepted = []
+    for cls, t, keys in ((ReactionSystem, "CC -> C#C + 2 [H][H]; 4e-7", "CC C [H][H]"), (ReactionSystem, "CC -> C + [H][H]\nCC -> C#C", ["CC", "C", "[H][H]"]), (ReactionSystem, "A# -> B", "A B"),
+                         (ReactionSystem, "A -> B + (C#C)", "A B C"), (EqSystem, "A = B + C#C; 3", "A B C"), (ReactionSystem, "A -> 2 * B#x", "A B")):
+        try:
+            accepted.append((t, keys, [str(r) for r in cls.from_string(t, keys, substance_factory=Substance, checks=()).rxns]))
+        except ValueError:
+            pass
+        except Exception as ex:
+            accepted.append((t, keys, repr(ex)[:80]))
+    v.prove("unlisted_key_refused_not_cut_to_a_listed_one", not accepted, detail=repr(accepted[:3]))
+    # a token in the keyword part is text of that keyword value
+    got = _try(lambda: (lambda r: (dict(r.reac), dict(r.prod), r.param, r.ref))(ReactionSystem.from_string("N#N -> 2 N; 5; ref='made up #hashtag'", substance_factory=Substance).rxns[0]))
+    v.prove("token_in_a_keyword_value_is_kept", got == ({"N#N": 1}, {"N": 2}, 5, "made up #hashtag"), detail=repr(got))
+    # print -> parse of systems without inactive groups and names: against the keys the equal object, from the text alone the same reactions
+    oks = []
+    for cls, rcls, arrow in ((ReactionSystem, Reaction, "->"), (EqSystem, Equilibrium, "=")):
+        try:
+            keys = ["CC", "C=C", "C#C", "[H][H]"]
+            obj = cls([rcls({"CC": 1}, {"C#C": 1, "[H][H]": 2}, 4e-7), rcls({"C=C": 1}, {"C#C": 1, "[H][H]": 1}, 2.5e-3), rcls({"C#C": 2}, {"CC": 1}, None, checks=())],
+                      [Substance(k) for k in keys], checks=())
+            txt = obj.string()
+            back, alone = cls.from_string(txt, keys, substance_factory=Substance, checks=()), cls.from_string(txt, substance_factory=Substance, checks=())
+            same = [back == obj, type(back) is cls, list(back.substances) == keys, summary(back) == summary(obj), summary(alone) == summary(obj), set(alone.substances) == set(keys) and len(alone.substances) == 4,
+                    summary(obj)[0][1:3] == ({"CC": 1}, {"C#C": 1, "[H][H]": 2})]
+            oks.append((all(same), "%r: %r" % (txt, same)))
+        except Exception as ex:
+            oks.append((False, repr(ex)[:160]))
+    v.prove("print_parse_round_trip", all(ok for ok, _ in oks), detail="; ".join(d for ok, d in oks if not ok)[:300])
